@@ -80,6 +80,21 @@ pub fn record(args: &Args) {
         }
     }
 
+    if mode == "cases" {
+        // sentences derived by TLC from Grammar.tla (every selector kind and variant)
+        let path = args.opt.get("cases").expect("--cases <file>");
+        let every = args.get_u64("every", 1);
+        for (i, c) in crate::util::read_ndjson(path).iter().enumerate() {
+            if c["expect"] != "accept" || (i as u64 + seed) % every != 0 {
+                continue;
+            }
+            let src = c["text"].as_str().unwrap().to_string();
+            let ctx = if src.contains("PH") || src.contains("SH") { Ctx::random(&mut rng) } else { Ctx::plain() };
+            let ev = event(id + 1, &src, &ctx, &mut rng, ndays, &[]);
+            out(ev, &mut id);
+        }
+    }
+
     if mode == "comments" {
         // every rule carries its own distinguishable comment (C17)
         let mut produced = 0;
